@@ -334,9 +334,11 @@ type rstate struct {
 	geZ              map[rcls]bool // classes of values known to be ≥ 0
 	zeroC            map[rcls]bool // classes known to be ≡ 0 (mod L): a value of class c was found equal to k ⇒ c − k
 	paramArg         map[ssa.Value]ssa.Value // helper parameter → the caller's argument (refinements flow back)
+	phiSrc           map[ssa.Value]ssa.Value // path enumeration only: the edge value a φ took on this path
 	ret              rival
 	retC             rcls
 	hasRet           bool
+	retB             map[int]rival // boolean results of the helper just returned from, by result index, when known exactly
 }
 
 func newRState(lzero bool) *rstate {
@@ -388,6 +390,12 @@ func (s *rstate) clone() *rstate {
 	n.paramArg = make(map[ssa.Value]ssa.Value, len(s.paramArg))
 	for k, v := range s.paramArg {
 		n.paramArg[k] = v
+	}
+	if s.phiSrc != nil {
+		n.phiSrc = make(map[ssa.Value]ssa.Value, len(s.phiSrc))
+		for k, v := range s.phiSrc {
+			n.phiSrc[k] = v
+		}
 	}
 	return &n
 }
@@ -745,6 +753,9 @@ func (ra *ringAbs) setRefined(s *rstate, v ssa.Value, iv rival, d int) {
 	if a, ok := s.paramArg[v]; ok && a != v {
 		ra.setRefined(s, a, iv, d+1)
 	}
+	if src, ok := s.phiSrc[v]; ok && src != v {
+		ra.setRefined(s, src, iv, d+1)
+	}
 	if f := s.fieldOf[v]; f != nil {
 		isHead := sameField(f, ra.m.headF)
 		if s.loadVer[v] == 0 {
@@ -771,15 +782,26 @@ func (ra *ringAbs) setRefined(s *rstate, v ssa.Value, iv rival, d int) {
 	switch x := v.(type) {
 	case *ssa.BinOp:
 		shift := func(iv rival, k int64) rival { return rival{radd(iv.lo, rconst(k)), radd(iv.hi, rconst(k))} }
+		// an operand whose value is known exactly (a constant handed to a helper) counts as a constant
+		exactK := func(v ssa.Value) (int64, bool) {
+			if k, ok := constInt(v); ok {
+				return k, true
+			}
+			e := ctx.normIv(ra.valOf(s, v))
+			if e != rTop && e.lo.inf == 0 && e.hi.inf == 0 && e.lo == e.hi && e.lo.a == 0 {
+				return e.lo.b, true
+			}
+			return 0, false
+		}
 		switch x.Op {
 		case token.ADD:
-			if k, ok := constInt(x.Y); ok {
+			if k, ok := exactK(x.Y); ok {
 				ra.setRefined(s, x.X, shift(iv, -k), d+1)
-			} else if k, ok := constInt(x.X); ok {
+			} else if k, ok := exactK(x.X); ok {
 				ra.setRefined(s, x.Y, shift(iv, -k), d+1)
 			}
 		case token.SUB:
-			if k, ok := constInt(x.Y); ok {
+			if k, ok := exactK(x.Y); ok {
 				ra.setRefined(s, x.X, shift(iv, k), d+1)
 			}
 		}
@@ -969,6 +991,15 @@ func (ra *ringAbs) runPaths(fn *ssa.Function, qv ssa.Value, b, pred *ssa.BasicBl
 		}
 		for _, x := range nv {
 			s.env[x.ph], s.cls[x.ph] = x.iv, x.c
+			for j, p := range b.Preds {
+				if p == pred {
+					if s.phiSrc == nil {
+						s.phiSrc = map[ssa.Value]ssa.Value{}
+					}
+					s.phiSrc[x.ph] = x.ph.Edges[j]
+					break
+				}
+			}
 			if x.f != nil {
 				s.fieldOf[x.ph], s.loadVer[x.ph] = x.f, x.lv
 			} else {
@@ -1170,6 +1201,7 @@ func (ra *ringAbs) joinState(a, b *rstate, widen bool, at *ssa.BasicBlock) (*rst
 	}
 	changed := false
 	r := a.clone()
+	r.phiSrc = nil
 	ctx := rctx{a.lzero}
 	if a.lzero != b.lzero {
 		// one path has an empty buffer, the other L ≥ 1: forget symbolic bounds (sound; not produced by today's code)
@@ -1362,6 +1394,22 @@ func (ra *ringAbs) applyEdge(o *rstate, qv ssa.Value, iff *ssa.If, i int) bool {
 	cm, okc := edgeCmp(iff, i)
 	if !okc || !(isIntVal(cm.X) || isBoolVal(cm.X)) {
 		return true
+	}
+	// u + v against u itself: decided by v against 0 (Peek's `n += q.n; … n >= q.n`)
+	cx := cm.X
+	for i := 0; i < 4; i++ {
+		if src, ok := o.phiSrc[cx]; ok {
+			cx = src
+		}
+	}
+	if bo, ok := cx.(*ssa.BinOp); ok && bo.Op == token.ADD && isIntVal(bo) {
+		for _, pr := range [][2]ssa.Value{{bo.X, bo.Y}, {bo.Y, bo.X}} {
+			if ra.sameVal(o, cm.Y, pr[0]) {
+				if _, mf := ctx.decideIv(ra.valOf(o, pr[1]), rexact(rconst(0)), cm.Op); mf {
+					return false
+				}
+			}
+		}
 	}
 	X, Y := ra.valOf(o, cm.X), ra.valOf(o, cm.Y)
 	if _, mf := ctx.decideIv(X, Y, cm.Op); mf {
@@ -1651,6 +1699,24 @@ func (ra *ringAbs) step(fn *ssa.Function, qv ssa.Value, s *rstate, ins ssa.Instr
 			if isIntVal(x) && res.hasRet {
 				res.env[x], res.cls[x] = res.ret, res.retC
 			}
+			// boolean results (found, ok): what this path of the helper answered
+			if isBoolVal(x) {
+				if bv, ok := res.retB[0]; ok {
+					res.env[x] = bv
+				} else {
+					delete(res.env, x)
+				}
+			}
+			for _, r := range referrersOf(x) {
+				if ex, ok := r.(*ssa.Extract); ok && isBoolVal(ex) {
+					if bv, ok := res.retB[ex.Index]; ok {
+						res.env[ex] = bv
+					} else {
+						delete(res.env, ex)
+					}
+				}
+			}
+			res.retB = nil
 			res.hasRet = false
 			out = append(out, res)
 		}
@@ -1868,6 +1934,17 @@ func (ra *ringAbs) step(fn *ssa.Function, qv ssa.Value, s *rstate, ins ssa.Instr
 		o := s.clone()
 		if len(x.Results) == 1 && isIntVal(x.Results[0]) {
 			o.ret, o.retC, o.hasRet = ra.valOf(s, x.Results[0]), ra.clsOf(s, x.Results[0], 0), true
+		}
+		o.retB = nil
+		for i, r := range x.Results {
+			if isBoolVal(r) {
+				if bv := ra.valOf(s, r); bv != rTop {
+					if o.retB == nil {
+						o.retB = map[int]rival{}
+					}
+					o.retB[i] = bv
+				}
+			}
 		}
 		*exits = append(*exits, o)
 		s.unreach = true
